@@ -34,6 +34,9 @@ def main():
     fams = embed.QUICK_FAMILIES if quick else embed.FAMILIES
     plan = RP.plan_jobs(ck, dumps, fams, ('c', 'py'), ('mid',) if quick else ('mid', 'ext'),
                         1500 if quick else 30000, 500 if quick else 6000, ['checkers', 'check_from'])
+    if quick:
+        # the extremes of the key domain as well - for object keys that includes None, the smallest key of all
+        plan += RP.plan_jobs(ck, dumps, ['OO', 'OI', 'LQ'], ('c', 'py'), ('ext',), 500, 200, ['checkers', 'check_from'])
     RP.run_plan(ck, plan)
     # 3. code -> spec: structures recorded along random histories (small sizes, sizes set on a
     #    subclass-free class, default sizes with many keys) judged by TLC: TreeVal!TSound
@@ -42,7 +45,7 @@ def main():
         for impl in ('c', 'py'):
             for kind in ('BTree', 'TreeSet'):
                 for (lf, it, nk) in ((2, 2, 16), (3, 2, 16), (2, 3, 16), (4, 4, 16)):
-                    hplan.append(dict(fam=fam, impl=impl, kind=kind, emb='mid', leaf=lf, internal=it, nkeys=nk,
+                    hplan.append(dict(fam=fam, impl=impl, kind=kind, emb='ext' if len(hplan) % 3 == 0 else 'mid', leaf=lf, internal=it, nkeys=nk,
                                       ntraces=3 if quick else 30, length=80 if quick else 300,
                                       seed=ck.seed * 1000 + len(hplan), structure=True))
     tracecheck.run_histories(ck, hplan)
